@@ -92,7 +92,8 @@ def check_baseline_dump(d, obs, pred, p, tag):
                     bad.append((f, d[f], ref[f]))
     if ref.get("r_squared") is not None and ref["observed"]["variance"] > 1e-18 * sc1 * sc1 and ref["predicted"]["variance"] > 1e-18 * sc1 * sc1:
         I.reach("field.r_squared")
-        if not O.close(d["r_squared"], ref["r_squared"], 1.0, rel=1e-7):
+        # a level 10^6..10^9 times the spread costs the squared correlation about log10(level/spread) digits whatever the algorithm: 1e-5 there
+        if not O.close(d["r_squared"], ref["r_squared"], 1.0, rel=1e-5 if (tag or {}).get("edge") == "large_offset" else 1e-7):
             bad.append(("r_squared", d["r_squared"], ref["r_squared"]))
         else:
             den = ref["ddof"] - 1
